@@ -66,6 +66,7 @@ struct Probe {
 	std::vector<int> badOrigin;	// event indices whose control.stateId() was not the state's id
 	int occ[fx::N][40];			// occurrences of (state, method) in this call
 	void* instance = nullptr;	// FSM::Instance*
+	bool quiet = false;			// no event logging (used to count the library's own allocations)
 	void resetCall() { ev.clear(); log.clear(); evCount = 0; draws = 0; badThis.clear(); badOrigin.clear(); memset(occ, 0, sizeof occ); }
 };
 inline Rational ScriptedRng::next() noexcept {
@@ -204,10 +205,12 @@ template <typename C> static hfsm2::StateID originOf(const C& c) { return c.stat
 template <typename C>
 static void probeCall(C& c, int id, int method, const void* self, bool injected) {
 	Probe& p = *c._()->probe;
-	std::string me = injected ? std::string("i_") + kMethodNames[method] : std::string(kMethodNames[method]);
+	char me[40]; snprintf(me, sizeof me, "%s%s", injected ? "i_" : "", kMethodNames[method]);
 	const int occurrence = ++p.occ[id][method + (injected ? 20 : 0)];
-	if (p.evCount++) p.ev += ',';
-	p.ev += '['; jint(p.ev, id + 1); p.ev += ",\""; p.ev += me; p.ev += "\","; observe(p.ev, c); p.ev += ']';
+	if (!p.quiet) {
+		if (p.evCount++) p.ev += ',';
+		p.ev += '['; jint(p.ev, id + 1); p.ev += ",\""; p.ev += me; p.ev += "\","; observe(p.ev, c); p.ev += ']';
+	}
 	if (!injected && self != accessOf(p.instance, id)) p.badThis.push_back(p.evCount);
 	if (originOf(c) != (hfsm2::StateID) id) p.badOrigin.push_back(p.evCount);
 	for (const Hook& h : p.sc.hooks)
@@ -220,6 +223,7 @@ static void probeCall(C& c, int id, int method, const void* self, bool injected)
 template <typename C>
 static void probeReport(const C& c, int id, int method) {
 	Probe& p = *c._()->probe;
+	if (p.quiet) return;
 	if (p.evCount++) p.ev += ',';
 	p.ev += '['; jint(p.ev, id + 1); p.ev += ",\""; p.ev += kMethodNames[method]; p.ev += "\",-1,[],-1,-1,-1,[],[]]";
 }
